@@ -89,12 +89,9 @@ def fn_attr_targets(prog, mod, cls):
     for m, c in evaluator_classes(prog):
         names = [cc.name for _, cc in prog.mro(m, c)]
         if cls.name in names:
-            v = pf.class_attrs(c).get("_fn")
-            if v is not None:
-                nm = er.native_name(v)
-                if nm is None:
-                    raise core.AnalysisError("%s._fn is not `<lib>.<function>` / getattr(<lib>, \"<function>\")" % c.name)
-                out[c.name] = nm
+            nb = er.native_binding(m, c)
+            if nb is not None:
+                out[c.name] = nb[1]
     return out
 
 
@@ -106,6 +103,7 @@ def rule_accumulate(chk, prog, tree):
     classes = evaluator_classes(prog)
     chk.count("FuncEvaluator subclasses", len(classes))
     c_jobs = {}
+    native_attrs = {er.native_binding(m_, c_)[0] for m_, c_ in classes if er.native_binding(m_, c_)}
     for mod, cls in classes:
         fn = pf.methods(cls).get("__call__")
         if fn is None:
@@ -128,7 +126,7 @@ def rule_accumulate(chk, prog, tree):
             if isinstance(f, ast.Attribute) and f.attr == "__call__" and s.startswith("super("):
                 for b in passed:
                     delegated[b].append("super().__call__")
-            elif pf.is_self_attr(f, "_fn"):
+            elif pf.is_self_attr(f) and f.attr in native_attrs:
                 for b, i in passed.items():
                     delegated[b].append("self._fn arg %d" % i)
                     for cname, cfn in fn_attr_targets(prog, mod, cls).items():
@@ -268,9 +266,13 @@ def rule_shape_guard(chk, prog):
     a = [x.arg for x in fn.args.args]
     xname, bufs = a[1], a[2:4]
     g = cfgm.CFG(fn)
-    calls = [n for n in pf.walk_no_nested(fn) if isinstance(n, ast.Call) and pf.is_self_attr(n.func, "_fn")]
+    nb = er.native_binding(prog.module(XE), prog.module(XE).cls("RBFEvaluator"))
+    if nb is None:
+        raise core.AnalysisError("RBFEvaluator binds no native function (<attr> = <lib>.<function>)")
+    calls = [n for n in pf.walk_no_nested(fn) if isinstance(n, ast.Call) and pf.is_self_attr(n.func, nb[0])]
     if len(calls) != 1:
-        raise core.AnalysisError("RBFEvaluator.__call__: expected exactly one native call self._fn(...)")
+        raise core.AnalysisError("RBFEvaluator.__call__: expected exactly one call of the native function self.%s(...)"
+                                 % nb[0])
     cnode = g.stmt_of_expr(calls[0])
     if cnode is None:
         raise core.AnalysisError("native call not found in the CFG")
@@ -390,20 +392,13 @@ def rule_baseline_degree(chk, prog):
     except Exception as ex:  # the engine is a separate module
         raise core.AnalysisError("degree engine sa/deg.py not importable: %s" % ex)
     mod = prog.module(BL)
-    tab = mod.assigns.get("BASELINE_CODES")
-    if not isinstance(tab, ast.Dict):
-        raise core.AnalysisError("BASELINE_CODES is no longer a literal dict")
-    helpers = {}
-    for k, v in zip(tab.keys, tab.values):
-        fn = mod.functions.get(v.id) if isinstance(v, ast.Name) else None
-        if fn is None:
-            continue
-        for n in pf.walk_no_nested(fn):
-            if isinstance(n, ast.Call) and pf.call_name(n) == "_sl_x_helper" and len(n.args) == 2 \
-                    and isinstance(n.args[1], ast.Name) and n.args[1].id in mod.functions:
-                helpers[n.args[1].id] = k.value if isinstance(k, ast.Constant) else pf.src(k)
-    if len(helpers) < 4:
-        raise core.AnalysisError("fewer than the 4 native exchange helpers found behind _sl_x_helper")
+    # the per-spin exchange kernels: module functions that a registered baseline hands on as a callable
+    # (found from the public registry, not by name)
+    helpers = {h: code for h, code in er.baseline_graph(mod)["helpers"].items()
+               if len(mod.functions[h].args.args) == 3}
+    if len(helpers) < 3:
+        raise core.AnalysisError("fewer than 3 per-spin exchange kernels are handed on as callables by the functions "
+                                 "registered in BASELINE_CODES")
     try:
         hooks = deg.ProgramHooks(prog)
         for hname, code in sorted(helpers.items()):
